@@ -318,7 +318,9 @@ def pruneStages (ch : Chain) : Chain :=
   let ch := ch.map fun f => if f.cannot then { f with excluded := true, inc := false } else f
   let ch := clusters ch
   let n := ch.length
-  let ch := eliminateUnused (n * n + n + 8) (List.range n) ch
+  -- (fuel: one step per entry of the work list, which grows by a provider's `uses` when it is eliminated --
+  --  at most once each; proved sufficient in `NjectProofs/IncludeTerm.lean`)
+  let ch := eliminateUnused (n + (ch.map (·.uses.length)).sum + 8) (List.range n) ch
   let ch := proposalLoop (n + 1) ch
   ch.map fun f => { f with cannot := f.excluded }
 
